@@ -101,6 +101,14 @@ def shape(e, roles=None, depth=20):
             return roles[e.local]
         if e.is_arg:
             return "arg%d" % e.local
+        lift = getattr(e, "lift", None)
+        if lift is not None and not isinstance(roles, _Uniq):
+            scrut, some_v, none_v = lift
+            xs = shape(scrut, roles, depth - 1)
+            ss = shape(some_v, roles, depth - 1)
+            if "try(%s)" % xs in ss:
+                # match opt { Some(x) => f(x), None => d }  is  opt.map_or(d, f)
+                return "Option::map_or(%s,%s,\u03bb(%s))" % (xs, shape(none_v, roles, depth - 1), ss.replace("try(%s)" % xs, "p1"))
         return "var:%s" % short_ty(e.ty)
     if isinstance(e, Upvar):
         cap = e.captured()
@@ -702,6 +710,38 @@ def root_local(e):
             e = e.args[0]
             continue
         return None
+
+
+def value_shape(body, local, roles=None):
+    """Shape of a local's value as a whole: the single definition, or the `map_or` form of a
+    two-sided match on an Option (the individual definitions are in def_shapes)."""
+    ds = body.defs.get(local, [])
+    if len(ds) == 1:
+        return def_shapes(body, local, roles)[0][0]
+    e = body.expr_of_local(local)
+    while isinstance(e, Named):
+        e = e.x
+    if isinstance(e, Var) and getattr(e, "lift", None) is not None:
+        return shape(e, roles)
+    return None
+
+
+def callable_body(e):
+    """Body of the first crate-local callable (closure or function item) mentioned in an expression."""
+    for x in e.walk():
+        owner = getattr(x, "owner", None)
+        if owner is None:
+            continue
+        if isinstance(x, Agg) and x.ak == "closure":
+            return owner.facts.body(x.closure, required=False)
+        if isinstance(x, Const) and x.fn and x.c.get("fn_local"):
+            return owner.facts.body(x.fn, required=False)
+    return None
+
+
+def first_param(body):
+    """Local of the first user parameter (closures keep their environment in _1)."""
+    return 2 if body.kind == "Closure" else 1
 
 
 def site_str(body, bb):
